@@ -27,7 +27,7 @@ Proof. exact as_of_branch. Qed.
 Print Assumptions C33_as_of_branch.
 
 Theorem C33_as_of_tag :
-  forall r g c k t, assoc g (r_tags r) = Some c -> commit_at (r_hist r) c = Some k ->
+  forall r g c k t, assoc g (r_branches r) = None -> assoc g (r_tags r) = Some c -> commit_at (r_hist r) c = Some k ->
   is_table_of (k_state k) t (as_of r (BTag g, []) t).
 Proof. exact as_of_tag. Qed.
 Print Assumptions C33_as_of_tag.
@@ -47,6 +47,12 @@ Theorem C33_revision_db_eq_as_of :
   forall r v t, names_commit r v -> revdb r v t = as_of r v t.
 Proof. exact revision_db_eq_as_of. Qed.
 Print Assumptions C33_revision_db_eq_as_of.
+
+Theorem C33_shadowed_tag :
+  forall r g hd w l t, assoc g (r_branches r) = Some (hd, w) ->
+  resolve_rev r (BTag g, l) = resolve_rev r (BBranch g, l) /\ revdb r (BTag g, l) t = revdb r (BBranch g, l) t.
+Proof. intros r g hd w l t H. split; [eapply resolve_shadowed_tag; exact H | eapply revdb_shadowed_tag; exact H]. Qed.
+Print Assumptions C33_shadowed_tag.
 
 Theorem C33_revision_db_spec :
   forall r v t i c, names_commit r v -> resolve_rev r v = Some i -> commit_at (r_hist r) i = Some c ->
